@@ -55,6 +55,7 @@ type offScen struct {
 	lastCommitE   uint64
 	lastCommitUs  int64
 	lastCommitDone bool
+	commitsInFlight int
 }
 
 func scenOffsets(r *run) {
@@ -81,6 +82,16 @@ func scenOffsets(r *run) {
 		r.finish("infra", "generated config invalid: "+err.Error())
 	}
 	gm.onCommit = os.onCommit
+	onWireWrite = func(c *simConn, h reqHeader, frame []byte) {
+		if h.api == 8 {
+			os.commitsInFlight++
+		}
+	}
+	cl.onDeliver = func(c *simConn, corr int32) {
+		if os.commitsInFlight > 0 {
+			os.commitsInFlight-- // (approximation: any delivered response ends an in-flight commit)
+		}
+	}
 	// pre-stored offsets
 	for i := range c.Workload {
 		op := &c.Workload[i]
@@ -269,6 +280,9 @@ func (os *offScen) doOp(om sarama.OffsetManager, op *cf.Op, actor int) {
 			ps.resets[pair] = po.call
 		}
 		ps.mu.Unlock()
+	}
+	if os.commitsInFlight > 0 && op.Op != "next" {
+		os.r.probe("mark-or-reset-while-commit-in-flight")
 	}
 	switch op.Op {
 	case "mark":
